@@ -637,7 +637,7 @@ func evalC20Lock(c c20Lock, o *Obs) error {
 					if stop.Load() {
 						return
 					}
-					if spins%64 == 63 {
+					if spins%16 == 15 {
 						runtime.Gosched()
 					}
 				}
@@ -661,7 +661,16 @@ func evalC20Lock(c c20Lock, o *Obs) error {
 		}()
 	}
 	var failure error
+	// A loaded machine stretches a round from a microsecond to milliseconds (a descheduled worker keeps the
+	// others spinning); the rounds are therefore also bounded by time.  Fewer rounds = less coverage, not a verdict.
+	budget := time.Duration(pick(1500, 5000)) * time.Millisecond
+	t0 := time.Now()
+	done := int64(0)
 	for r := int64(1); r <= int64(c.Rounds); r++ {
+		if r%256 == 0 && os.Getenv("VERIF_REPLAY") == "" && time.Since(t0) > budget {
+			break
+		}
+		done = r
 		arrived.Store(0)
 		round.Store(r)
 		for spins := 0; arrived.Load() < int64(g); spins++ {
@@ -704,6 +713,14 @@ func evalC20Lock(c c20Lock, o *Obs) error {
 	}
 	stop.Store(true)
 	wg.Wait()
+	switch {
+	case done >= int64(c.Rounds):
+		o.Class("C20:lockstep-all-rounds-done")
+	case done >= 2000:
+		o.Class("C20:lockstep-stopped-by-time-budget(>=2000 rounds)")
+	default:
+		o.Class("C20:lockstep-stopped-by-time-budget(<2000 rounds)")
+	}
 	return failure
 }
 
